@@ -3,6 +3,7 @@
 -/
 import GEVerif.Model.Sexp
 import GEVerif.Model.Labels
+import GEVerif.Model.LabelsE
 import GEVerif.Drive.Val
 
 namespace GEVerif.Drive.C11
@@ -21,24 +22,45 @@ def labSx (l : Lab) : Sexp :=
   list [ofNat l.nodes, ofNat l.dtt, ofNat l.weighted,
         list ((sortBy (fun (p : TKey × Nat) => keyIdx p.1) l.types).map fun (k, c) => list [keySx k, ofNat c])]
 
+def rootDecl (g : Grammar) : Option Ty := some (.cls g.spec.start)
+
 /-- labels of every node and list of the program, in pre-order -/
 def allLabels (g : Grammar) (v : Val) : List Sexp :=
-  v.subvalues.filterMap fun x =>
-    match x with
-    | .node .. => some (labSx (relabel g x))
-    | .list .. => some (labSx (relabel g x))
-    | _ => none
+  if g.spec.expansion then
+    (declSubvalues g (rootDecl g) v).filterMap fun (decl, x) =>
+      match x with
+      | .node .. => some (labSx (relabelE g decl x))
+      | .list .. => some (labSx (relabelE g decl x))
+      | _ => none
+  else
+    v.subvalues.filterMap fun x =>
+      match x with
+      | .node .. => some (labSx (relabel g x))
+      | .list .. => some (labSx (relabel g x))
+      | _ => none
+
+def typeCounts (v : Val) : List (TKey × Nat) :=
+  ((v.subvalues.map Val.key).eraseDups).map fun k => (k, typeCountSpec v k)
 
 def specLab (g : Grammar) (v : Val) : Lab :=
-  let keys := (v.subvalues.map Val.key).eraseDups
-  ⟨nodesSpec g v, dttSpec g v, weightedSpec g v, keys.map fun k => (k, typeCountSpec v k)⟩
+  ⟨nodesSpec g v, dttSpec g v, weightedSpec g v, typeCounts v⟩
+
+def specLabE (g : Grammar) (decl : Option Ty) (v : Val) : Lab :=
+  ⟨nodesSpecE g decl v, dttSpecE g decl v, weightedSpecE g decl v, typeCounts v⟩
 
 def allSpecLabels (g : Grammar) (v : Val) : List Sexp :=
-  v.subvalues.filterMap fun x =>
-    match x with
-    | .node .. => some (labSx (specLab g x))
-    | .list .. => some (labSx (specLab g x))
-    | _ => none
+  if g.spec.expansion then
+    (declSubvalues g (rootDecl g) v).filterMap fun (decl, x) =>
+      match x with
+      | .node .. => some (labSx (specLabE g decl x))
+      | .list .. => some (labSx (specLabE g decl x))
+      | _ => none
+  else
+    v.subvalues.filterMap fun x =>
+      match x with
+      | .node .. => some (labSx (specLab g x))
+      | .list .. => some (labSx (specLab g x))
+      | _ => none
 
 def handle : List Sexp → Option Sexp
   | [atom "labels", spec, v] => do
